@@ -345,7 +345,16 @@ func (r *Real) Exec(o model.Op) (panicked bool, ret any, pmsg any) {
 		case "Values":
 			return false, r.wrapL(ob.Values()), nil
 		case "Pluck":
-			return false, r.wrapO(ob.Pluck(r.keys(o.Ks)...)), nil
+			// the caller's own slice of keys is an argument too: it must come back unchanged (C09)
+			ks := r.keys(o.Ks)
+			before := append([]string(nil), ks...)
+			res := ob.Pluck(ks...)
+			for i := range ks {
+				if ks[i] != before[i] {
+					panic(fmt.Sprintf("verif: Pluck changed the caller's slice of keys: %q -> %q", before, ks))
+				}
+			}
+			return false, r.wrapO(res), nil
 		case "Dict":
 			return false, &GoMap{M: ob.Dict()}, nil
 		case "NativeDict":
